@@ -4,6 +4,8 @@ import (
 	"fmt"
 	"go/types"
 	"strings"
+
+	"golang.org/x/tools/go/ssa"
 )
 
 // c19R4: a failed exchange with the responder is never answered from.  When the FastCGI client reports an error the
@@ -12,6 +14,14 @@ import (
 // response, a time-out, and an end-of-stream error with a response that has no status yet.  The response header is
 // written (writeHeader) only from a response that is there, with a status ResponseWriter.WriteHeader accepts and a
 // body to copy; every failed exchange ends in a gateway error status instead.
+type fcgiCase struct {
+	name      string
+	resp      string // "full", "nostatus", "nil"
+	err       string // "", "eof", "timeout", "other"
+	wantCode  int64  // expected returned status when nothing may be written; 0: the response is relayed
+	copyFails bool   // relaying the body fails after the header was written
+}
+
 func c19R4(h H) {
 	r := h.r
 	r.Rule("R4", "a failed FastCGI exchange is never answered from, as a table (E10) of Handler.ServeHTTP with the client's answer scripted {complete response; error, no response; time-out; io.EOF with a response that has no status and no body; io.EOF with no response}: writeHeader is reached only with a non-nil response whose status is within 100..999 and whose body is non-nil, and every other outcome returns 502/504 without touching the response", 1)
@@ -19,6 +29,20 @@ func c19R4(h H) {
 	if fn == nil {
 		return
 	}
+	cases := []fcgiCase{
+		{"a complete response", "full", "", 0, false},
+		{"an error and no response", "nil", "other", 502, false},
+		{"a time-out and no response", "nil", "timeout", 504, false},
+		{"the stream ended before any header: io.EOF with a response that has no status and no body", "nostatus", "eof", 502, false},
+		{"io.EOF and no response", "nil", "eof", 502, false},
+		{"an error with a response that has no status and no body", "nostatus", "other", 502, false},
+	}
+	bad, n := fcgiExchangeTable(h, fn, cases)
+	r.Check(bad == "" && n == len(cases), "R4", "fastcgi.Handler.ServeHTTP/failed-exchange-table", fn.Pos(), "the client is answered from the responder's response only when the exchange succeeded", fmt.Sprintf("%d exchanges evaluated", n), bad)
+}
+
+// fcgiExchangeTable evaluates fastcgi.Handler.ServeHTTP (E10) with the client's answer scripted per case.
+func fcgiExchangeTable(h H, fn *ssa.Function, cases []fcgiCase) (string, int) {
 	hT := fn.Params[0].Type()
 	reqT := fn.Params[2].Type().(*types.Pointer).Elem()
 	var ruleT types.Type
@@ -35,22 +59,7 @@ func c19R4(h H) {
 	opErrT := h.p.typeByName("net", "OpError")
 	hdrT, _ := types.Unalias(h.p.typeByName("net/http", "Header")).Underlying().(*types.Map)
 	if ruleT == nil || respT == nil || opErrT == nil || hdrT == nil {
-		r.Unresolve("R4", "fastcgi.Handler.Rules / http.Response / net.OpError not found")
-		return
-	}
-	type cs struct {
-		name     string
-		resp     string // "full", "nostatus", "nil"
-		err      string // "", "eof", "timeout", "other"
-		wantCode int64  // expected returned status when nothing may be written; 0: the response is relayed
-	}
-	cases := []cs{
-		{"a complete response", "full", "", 0},
-		{"an error and no response", "nil", "other", 502},
-		{"a time-out and no response", "nil", "timeout", 504},
-		{"the stream ended before any header: io.EOF with a response that has no status and no body", "nostatus", "eof", 502},
-		{"io.EOF and no response", "nil", "eof", 502},
-		{"an error with a response that has no status and no body", "nostatus", "other", 502},
+		return "fastcgi.Handler.Rules / http.Response / net.OpError not found", 0
 	}
 	bad, n := "", 0
 	for _, c := range cases {
@@ -123,6 +132,9 @@ func c19R4(h H) {
 				if _, isNil := args[1].(anil); isNil {
 					wrote = append(wrote, "copy from a nil body")
 				}
+				if c.copyFails {
+					return atuple{aint(0), aiface{aptr{mkObj("client went away"), ""}, types.Typ[types.Int]}}, true
+				}
 				return atuple{aint(0), anil{}}, true
 			case callee == "(*bytes.Buffer).Len":
 				return aint(0), true
@@ -157,7 +169,13 @@ func c19R4(h H) {
 				status = int64(v)
 			}
 		}
-		if c.wantCode == 0 {
+		if c.copyFails {
+			if len(wrote) != 1 || wrote[0] != "status 200" {
+				bad = fmt.Sprintf("%s: written: %v", desc, wrote)
+			} else if status >= 400 || status < 0 {
+				bad = fmt.Sprintf("%s: the response header has been written and the handler returns the status %d — the handlers above answer a status of 400 and more themselves (an error page into the response already begun, a second header); specification: 0 and the error", desc, status)
+			}
+		} else if c.wantCode == 0 {
 			if len(wrote) != 1 || wrote[0] != "status 200" || status != 0 {
 				bad = fmt.Sprintf("%s: the response is relayed as %v and the handler returns %d; specification: the header of the response (status 200) is written once and 0 returned", desc, wrote, status)
 			}
@@ -172,5 +190,5 @@ func c19R4(h H) {
 			break
 		}
 	}
-	r.Check(bad == "" && n == len(cases), "R4", "fastcgi.Handler.ServeHTTP/failed-exchange-table", fn.Pos(), "the client is answered from the responder's response only when the exchange succeeded", fmt.Sprintf("%d exchanges evaluated", n), bad)
+	return bad, n
 }
